@@ -159,7 +159,7 @@ def main(prop, argv=None):
     for line in total.get("known_lines", []):
         print(line)
     seen = set()
-    for v in violations:
+    for v in violations[:300]:
         path = write_replay(prop, v)
         if path in seen:
             continue
